@@ -18,7 +18,15 @@ AS = [
     "translated DNA with non-ACGT letters IS judged by the oracle for ASCII input: a codon with a letter other than A/C/G/T has no standard translation (X) unless it is xyN of a four-fold degenerate family; the other strand is the reverse complement under A<->T, C<->G, N->N (anything else has no complement); strand symmetry is checked through seq_to_hashes. Not judged: input with bytes >= 0x80 in translated mode (a codon that is not UTF-8 makes Rust panic -> exception; modelled and compared), and kmers_and_hashes on translated input with letters outside ACGTN (screed.rc raises AssertionError; modelled and compared)",
     "k = 0 is outside the property: DNA sketches hash len+1 empty k-mers (covered by dna_iter_eq_spec), protein-type sketches panic on every input (theorem translate_k0_panics, corpus/C02/panics.ops); ksize*3 beyond uint32 is refused by cffi with OverflowError in MinHash.__init__ (nothing wraps, not modelled)",
 ]
-RULE = ("one base sequence per case (length 0..80 biased to k-2..k+2, 3k-1..3k+1, 0..3; alphabets: ACGT, +N, +IUPAC, amino acids, "
+RULE = ("PERIPHERY (adapter-side, invisible to the model): per-case counter alternates the spellings of each operation "
+        "(bytes/str/int argument; positional/keyword/defaulted force; MinHash- vs SourmashSignature-level add_sequence/add_protein; "
+        "read-only calls on num/scaled/abundance/pre-filled/frozen/signature-derived sketches; hash_murmur default seed / int); after every op "
+        "views must agree (len/iter/.hashes, copy, pickle, frozen, signature wrap, JSON round trip incl. seed/ksize/moltype; "
+        "add_many(seq_to_hashes()) and add_kmer per window vs add_sequence; every sketch of a from_params multi-sketch signature vs the "
+        "stand-alone sketch; an accumulating sketch vs the sum of the fresh ones; repeated read-only calls; frozen sketches refuse); every "
+        "result object is kept to the end of the case and re-read after each later op; `sourmash sketch dna|translate|protein` and "
+        "`compute` run in-process on a FASTA file of the records; translate_codon / aa_to_dayhoff / aa_to_hp ops.  "
+        "one base sequence per case (length 0..80 biased to k-2..k+2, 3k-1..3k+1, 0..3; alphabets: ACGT, +N, +IUPAC, amino acids, "
         "odd ASCII incl. NUL/space/newline, multi-byte UTF-8 characters, raw bytes >= 0x80; random lower-casing), "
         "k in {1,2,3,4,7,21,31}, seeds {0,42,1,2^32,2^63,2^64-1}, four molecule types; pushed through hash_murmur, seq_to_hashes "
         "(force x bad_kmers_as_zeroes x str/bytes), kmers_and_hashes (force on/off), add_sequence (whole, force on/off, two pieces "
@@ -27,6 +35,107 @@ RULE = ("one base sequence per case (length 0..80 biased to k-2..k+2, 3k-1..3k+1
         "rc / case / pieces relations between ops; non-trivial = some op returned >= 3 hashes; distinct = distinct op lists")
 
 
+REF_DRIVER = r"""
+import contextlib, io, json, os, runpy, sys, tempfile
+sys.path.insert(0, os.environ["VERIF_HARNESS"])
+from streams.seq import murmur64
+import types
+# stand-in for the mmh3 package (not installed offline): hash64 -> (low, high) as SIGNED 64-bit ints
+mmh3 = types.ModuleType("mmh3")
+def hash64(key, seed=0, x64arch=True, signed=True):
+    if isinstance(key, str):
+        key = key.encode("utf-8")
+    h = murmur64(bytes(key), seed)
+    return (h - 2 ** 64 if h >= 2 ** 63 else h, 0)
+mmh3.hash64 = hash64
+sys.modules["mmh3"] = mmh3
+import sourmash, sourmash.signature as sg
+# the util still calls SourmashSignature(email, minhash, name=...): accept the legacy positional form
+_Orig = sg.SourmashSignature
+class Legacy(_Orig):
+    def __init__(self, *a, **kw):
+        if len(a) == 2 and isinstance(a[0], str):
+            a = a[1:]
+        super().__init__(*a, **kw)
+sg.SourmashSignature = Legacy
+if not hasattr(sg, "save_signatures"):           # renamed save_signatures_to_json since the util was written
+    def save_signatures(sigs, fp=None):
+        js = sg.save_signatures_to_json(sigs)
+        return js.decode("utf-8") if isinstance(js, bytes) else js
+    sg.save_signatures = save_signatures
+util, d = sys.argv[1], sys.argv[2]
+out = []
+for line in sys.stdin:
+    seq = line.strip()
+    if not seq:
+        continue
+    fa = os.path.join(d, "ref.fa")
+    with open(fa, "w") as f:
+        f.write(">r\n" + seq + "\n")
+    buf = io.StringIO()
+    sys.argv = [util, fa]
+    try:
+        with contextlib.redirect_stdout(buf), contextlib.redirect_stderr(io.StringIO()):
+            runpy.run_path(util, run_name="__main__")
+        js = json.loads(buf.getvalue().strip().split("\n")[-1])
+        ref = js[0]["signatures"][0]["mins"]
+        err = None
+    except BaseException as e:
+        ref, err = None, type(e).__name__ + ": " + str(e)[:200]
+    mh = sourmash.MinHash(n=500, ksize=21)
+    mh.add_sequence(seq)
+    out.append({"seq": seq, "ref": ref, "err": err, "real": sorted(mh.hashes)})
+print(json.dumps(out))
+"""
+
+
+def extra(chk, pkg):
+    """third implementation: utils/compute-dna-mh-another-way.py (its own k-mer / reverse-complement / min logic,
+    bottom-500 sketch through add_hash) on clean upper-case DNA.  It needs the mmh3 package (absent offline) and
+    still uses two pre-4.0 API calls: all three are shimmed, the util itself runs unmodified."""
+    import json as _json
+    import shutil
+    import subprocess
+    import tempfile
+    from common import BUILD, REPO, PY, VERIF
+    util = os.path.join(REPO, "utils", "compute-dna-mh-another-way.py")
+    if not os.path.exists(util):
+        chk.cov["reference_util"] = "utils/compute-dna-mh-another-way.py not found"
+        return
+    n = 120 if chk.tier == "thorough" else 16
+    seqs = []
+    for i in range(n):
+        ln = chk.rng.choice([21, 22, 25, 40, 60]) if i % 3 == 0 else chk.rng.randint(21, 700)
+        seqs.append("".join(chk.rng.choice("ACGT") for _ in range(ln)))
+    os.makedirs(os.path.join(BUILD, "tmp"), exist_ok=True)
+    d = tempfile.mkdtemp(prefix="c02ref", dir=os.path.join(BUILD, "tmp"))
+    try:
+        drv = os.path.join(d, "drv.py")
+        with open(drv, "w") as f:
+            f.write(REF_DRIVER)
+        env = dict(os.environ, PYTHONPATH=pkg, VERIF_HARNESS=os.path.join(VERIF, "harness"))
+        r = subprocess.run([PY, drv, util, d], input="\n".join(seqs) + "\n", env=env, text=True,
+                           stdout=subprocess.PIPE, stderr=subprocess.PIPE, timeout=900)
+        if r.returncode != 0:
+            chk.cov["reference_util"] = "driver failed: " + r.stderr[-300:]
+            return
+        res = _json.loads(r.stdout.strip().split("\n")[-1])
+    finally:
+        shutil.rmtree(d, ignore_errors=True)
+    ran = [x for x in res if x["ref"] is not None]
+    for x in ran:
+        chk.cov["evaluations"] += 1
+        if x["ref"] != x["real"]:
+            chk.add_violation("oracle", "C02:reference-util-disagrees",
+                              f"utils/compute-dna-mh-another-way.py and MinHash(n=500, ksize=21).add_sequence disagree on "
+                              f"{x['seq'][:60]}... ({len(x['seq'])} nt): {len(set(x['ref']) ^ set(x['real']))} hashes differ",
+                              {"seq": x["seq"], "reference": x["ref"][:20], "real": x["real"][:20]})
+    errs = sorted({x["err"] for x in res if x["err"]})
+    chk.cov["reference_util"] = (f"utils/compute-dna-mh-another-way.py run unmodified on {len(ran)}/{len(res)} clean DNA sequences "
+                                 f"(mmh3 shimmed by the oracle's MurmurHash3; its pre-4.0 calls SourmashSignature(email, mh) and signature.save_signatures shimmed); "
+                                 + ("all agree with add_sequence" if not errs else "errors: " + "; ".join(errs)[:300]))
+
+
 if __name__ == "__main__":
     streamlib.run_property("C02", seq, ["dna", "translate", "dna", "protein", "malformed", "dna", "translate", "malformed"],
-                           seq.oracle, 12000, 150000, TB, AS, RULE, nontrivial=seq.nontrivial)
+                           seq.oracle, 12000, 100000, TB, AS, RULE, nontrivial=seq.nontrivial, extra=extra)
